@@ -59,7 +59,7 @@ class SIR_FixedRecovery(SIR):
         self.addCompartment(self.REMOVED, 0.0)
 
         self.trackEdgesBetweenCompartments(self.SUSCEPTIBLE, self.INFECTED, name=self.SI)
-        self.addFixedRateEvent(self.SI, pInfect, self.infect, name=self.INFECTED)
+        self.addEventPerElement(self.SI, pInfect, self.infect, name=self.INFECTED)
 
 
     def setUp(self, params: Dict[str, Any]):
